@@ -5,12 +5,13 @@ use poulpy_core::layouts::{
     Base2K, Dnum, Dsize, GGSWInfos, GGSWPreparedFactory, GLWEInfos, LWEInfos, Rank, TorusPrecision, prepared::GGSWPrepared,
 };
 use poulpy_core::layouts::{
-    GGLWEInfos, GGLWEPreparedToRef, GGSW, GGSWLayout, GGSWPreparedToMut, GGSWPreparedToRef, GLWEAutomorphismKeyHelper,
-    GetGaloisElement, LWE,
+    GGLWEInfos, GGLWEPreparedToRef, GGSW, GGSWLayout, GGSWPreparedToMut, GGSWPreparedToRef, GLWE, GLWEAutomorphismKeyHelper,
+    GLWELayout, GetGaloisElement, LWE,
 };
-use poulpy_core::{EncryptionInfos, GLWECopy, GLWEDecrypt, GLWEPacking, LWEFromGLWE};
+use poulpy_core::{EncryptionInfos, GLWECopy, GLWEDecrypt, GLWEKeyswitch, GLWEPacking, LWEFromGLWE};
 
 use poulpy_core::{GGSWEncryptSk, ScratchTakeCore, layouts::GLWESecretPreparedToRef};
+use poulpy_hal::DEFAULTALIGN;
 use poulpy_hal::api::{ModuleLogN, ScratchAvailable, ScratchFromBytes};
 use poulpy_hal::layouts::{Backend, Data, DataRef, DeviceBuf, Module};
 
@@ -391,9 +392,38 @@ where
         A: GLWEInfos,
         B: BDDKeyInfos,
     {
-        self.circuit_bootstrapping_execute_tmp_bytes(block_size, extension_factor, res_infos, &bdd_infos.cbt_infos())
-            + GGSW::bytes_of_from_infos(res_infos)
+        let ks_lwe_infos = bdd_infos.ks_lwe_infos();
+
+        // Scratch of `FheUint::get_bit_lwe`: the extracted LWE has the limbs of `bits`.
+        let get_bit_lwe: usize = match bdd_infos.ks_glwe_infos() {
+            Some(ks_glwe_infos) => {
+                let res_tmp_infos: GLWELayout = GLWELayout {
+                    n: bits_infos.n(),
+                    base2k: ks_lwe_infos.base2k(),
+                    k: ks_lwe_infos.max_k().min(bits_infos.max_k()),
+                    rank: ks_lwe_infos.rank_out(),
+                };
+                GLWE::<Vec<u8>>::bytes_of_from_infos(&res_tmp_infos)
+                    + self
+                        .glwe_keyswitch_tmp_bytes(&res_tmp_infos, bits_infos, &ks_glwe_infos)
+                        .max(self.lwe_from_glwe_tmp_bytes(bits_infos, &res_tmp_infos, &ks_lwe_infos))
+            }
+            None => self.lwe_from_glwe_tmp_bytes(bits_infos, bits_infos, &ks_lwe_infos),
+        };
+
+        let tot: usize = GGSW::bytes_of_from_infos(res_infos)
             + LWE::bytes_of_from_infos(bits_infos)
+            + get_bit_lwe
+                .max(self.circuit_bootstrapping_execute_tmp_bytes(
+                    block_size,
+                    extension_factor,
+                    res_infos,
+                    &bdd_infos.cbt_infos(),
+                ))
+                .max(self.ggsw_prepare_tmp_bytes(res_infos));
+
+        // The per-thread arenas are carved one after the other and each one is re-aligned.
+        tot.next_multiple_of(DEFAULTALIGN)
     }
 
     fn fhe_uint_prepare_custom_multi_thread<DM, DB, DK, K, T: UnsignedInteger>(
